@@ -189,6 +189,12 @@ pub fn bank_program(rng: &mut Rng) -> Vec<u8> {
         if rng.chance(1, 3) {
             s.push_str("    #fill\n");
         }
+        if rng.chance(1, 6) {
+            // several unrecognised fields in one block
+            for f in ["#speed 3", "#mirror 1", "#colour 2", "#pages 4"].iter().take(rng.range(2, 4)) {
+                s.push_str(&format!("    {}\n", f));
+            }
+        }
         s.push_str("}\n\n");
     }
     for i in 0..n {
@@ -312,7 +318,7 @@ pub fn feature_mix_program(rng: &mut Rng) -> Vec<u8> {
     let mut used: Vec<usize> = Vec::new();
     for i in 0..nblocks {
         // (block 16, addresses beyond 16 bits, a little more often)
-        let kind = if rng.chance(1, 12) { 16 } else { rng.below(18) };
+        let kind = if rng.chance(1, 12) { 16 } else { rng.below(19) };
         used.push(kind);
         match kind {
             0 => {
@@ -371,6 +377,12 @@ pub fn feature_mix_program(rng: &mut Rng) -> Vec<u8> {
                 if rng.chance(1, 2) {
                     s.push_str(&format!("#d8 chk{i}`8\n", i = i));
                 }
+            }
+            17 => {
+                // a rule with several parameters whose asm block misspells one
+                // of its {substitutions}
+                let typo = rng.chance(1, 2);
+                s.push_str(&format!("#ruledef\n{{\n    put3{i} {{v: u8}} => v\n    mv3{i} {{dst: u8}}, {{src: u8}}, {{imm: u8}} => asm\n    {{\n        put3{i} {{dst}}\n        put3{i} {{{}}}\n        put3{i} {{imm}}\n    }}\n}}\nmv3{i} 1, 2, 3\n", if typo { "scr" } else { "src" }, i = i));
             }
             16 => {
                 // addresses beyond 16 bits (formats with an address field)
